@@ -39,6 +39,10 @@ fn descs() -> Vec<FnDesc> {
         // fail with an error that is itself a UserFunctionError naming another function
         FnDesc { name: "cu", cacheable: true, kind: Kind::EU, suspend: 0 },
         FnDesc { name: "nu", cacheable: false, kind: Kind::EU, suspend: 0 },
+        // two functions whose types are zero-sized (plain unit structs, as in the crate's own documentation): nothing distinguishes
+        // them but their names
+        FnDesc { name: "zsta", cacheable: true, kind: Kind::Tag, suspend: 0 },
+        FnDesc { name: "zstb", cacheable: true, kind: Kind::Tag, suspend: 0 },
     ]
 }
 
@@ -104,6 +108,10 @@ fn arg_value(c: &Call, a: &[Value]) -> Value {
         999_992 => return Value::String("x".repeat(70_000)),
         999_993 => return Value::String(format!("{}y", "x".repeat(69_999))),
         999_994 => return Value::Vec((0..30_000).map(Value::Int).collect()),
+        // the same length as 999_992, different in the middle / at the first byte / at one third
+        999_995 => return Value::String(format!("{}M{}", "x".repeat(34_999), "x".repeat(35_000))),
+        999_996 => return Value::String(format!("F{}", "x".repeat(69_999))),
+        999_997 => return Value::String(format!("{}T{}", "x".repeat(23_333), "x".repeat(46_666))),
         _ => {}
     }
     // indices beyond the look-alike pool denote "the integer <index>" (used by the long histories)
@@ -320,16 +328,19 @@ fn exhaustive(ctx: &mut Ctx, max_len: usize) {
 fn random(ctx: &mut Ctx, n: usize) {
     let mut rng: Rng = ctx.rng.clone();
     let a = args();
-    let fns = ["ca", "cb", "na", "cn", "ce", "nb", "cr", "nr", "dcx", "a_rather_long_function_name_for_a_cacheable_lookup_a", "a_rather_long_function_name_for_a_cacheable_lookup_b", "a_rather_long_function_name_for_a_cacheable_lookup", "tg", "tg", "tgoff", "cu", "nu"];
+    let fns = ["ca", "cb", "na", "cn", "ce", "nb", "cr", "nr", "dcx", "a_rather_long_function_name_for_a_cacheable_lookup_a", "a_rather_long_function_name_for_a_cacheable_lookup_b", "a_rather_long_function_name_for_a_cacheable_lookup", "tg", "tg", "tgoff", "cu", "nu", "zsta", "zstb", "zsta", "zstb"];
     for _ in 0..n {
         let len = if rng.chance(1, 10) { 13 + rng.below(48) } else { 1 + rng.below(12) };
         // few distinct arguments per history so that repeats are common
         let k = 1 + rng.below(4);
         let mut local: Vec<usize> = (0..k).map(|_| if rng.chance(1, 4) { 1_000_000 + rng.below(1_000_000) } else { rng.below(a.len()) }).collect();
         if rng.chance(1, 250) {
-            local[0] = 999_992 + rng.below(3);
-            if k > 1 && rng.chance(1, 2) {
-                local[1] = 999_992 + rng.below(3);
+            local[0] = 999_992 + rng.below(6);
+            if k > 1 {
+                local[1] = 999_992 + rng.below(6);
+            }
+            if k > 2 {
+                local[2] = 999_992;
             }
         }
         let calls: Vec<Call> = (0..len)
